@@ -78,7 +78,7 @@ func Run(t *rapid.T, c *vstat.Collector, prop string, prog gencore.Program, seq 
 	}
 	c.Class("programs")
 	c.Class("tail_" + prog.Tail)
-	c.Sample(map[string]any{"units": len(prog.Units), "tail": prog.Tail, "gc_output_head": tail(refN, 300)})
+	c.SampleNow(map[string]any{"units": len(prog.Units), "tail": prog.Tail, "gc_output_head": tail(refN, 300)})
 	for _, cfg := range configs() {
 		got := tc.RunLlgo(dir, cfg, nil)
 		if got.Skip {
